@@ -48,6 +48,12 @@ class histosys_builder:
             else [0.0] * self.config.channel_nbins[channel]
         )
         moddata = self.collect(thismod, nom)
+        if not len(nom) == len(moddata['lo_data']) == len(moddata['hi_data']):
+            raise InvalidModifier(
+                f"The '{sample}' sample histosys modifier '{thismod['name']}' in channel '{channel}' has data shape inconsistent with the sample.\n"
+                + f"{sample} has 'data' of length {len(nom)} but {thismod['name']}"
+                + f" has 'lo_data' of length {len(moddata['lo_data'])} and 'hi_data' of length {len(moddata['hi_data'])}."
+            )
         self.builder_data[key][sample]['data']['lo_data'].append(moddata['lo_data'])
         self.builder_data[key][sample]['data']['hi_data'].append(moddata['hi_data'])
         self.builder_data[key][sample]['data']['nom_data'].append(moddata['nom_data'])
